@@ -145,6 +145,26 @@ func (x xop) addTo(h *core.History) {
 // Exhaustive: every op sequence of a fixed length (prefixes are covered because observables are
 // printed after every op) over three alphabets of 10 op instances on 3 keys.
 func (comp) Exhaustive(prop string, tier string, yield func(*core.History)) {
+	// LARGE-POPULATION histories (beyond the small scope): a cache of several hundred entries filled past its capacity; a threshold
+	// or batch boundary inside the eviction path shows here and nowhere else
+	for kind := 0; kind < 2; kind++ {
+		capacity, n := 530, 700
+		if tier == "thorough" {
+			capacity, n = 1100, 1500
+		}
+		name := func(j int) []byte { return []byte(fmt.Sprintf("k%04d", j)) }
+		h := &core.History{}
+		setConfig(h, kind, capacity, int64(capacity)+40, [][]byte{name(0), name(1), name(100), name(n - capacity - 1), name(n - capacity), name(511), name(512), name(n - 1)})
+		for j := 0; j < n; j++ {
+			addPut(h, opPut, name(j), []byte("v1"), 1)
+			if j == 300 {
+				h.Add(opGet, "Get(k0100)", core.B(name(100))) // refreshed: survives longer than its neighbours
+			}
+		}
+		h.Add(opGet, "Get(k0100)", core.B(name(100)))
+		h.Add(opHas, "Has", core.B(name(n-capacity)))
+		yield(h)
+	}
 	a, b, c := []byte("a"), []byte("b"), []byte("c")
 	v1, v2 := []byte("v1"), []byte("v2")
 	h1, h2 := []byte("h1"), []byte("h2")
